@@ -67,7 +67,7 @@ type c08Event struct {
 func (e c08Event) String() string {
 	f := c08Files[e.file]
 	switch e.kind {
-	case "change", "create", "extchange":
+	case "change", "create", "extchange", "replace":
 		return fmt.Sprintf("%s(%s,%s)", e.kind, f, c08Variants[e.v].name)
 	}
 	return fmt.Sprintf("%s(%s)", e.kind, f)
@@ -139,7 +139,7 @@ func (s c08State) step(e c08Event) (c08State, bool) {
 			return s, false
 		}
 		n.disk[f] = -1
-	case "extchange":
+	case "extchange", "replace":
 		if s.disk[f] < 0 || s.buf[f] >= 0 || s.disk[f] == e.v {
 			return s, false
 		}
@@ -295,6 +295,12 @@ func c08Apply(s *drv.Server, st c08State, e c08Event) error {
 	case "extchange":
 		os.WriteFile(path, []byte(c08Variants[e.v].text), 0o644)
 		return s.Watched([]drv.FileEvent{{Rel: rel, Type: 2}})
+	case "replace":
+		// the file is replaced on disk (git checkout, a safe-write editor): the watcher reports Deleted and Created
+		// for the same file in ONE notification
+		os.Remove(path)
+		os.WriteFile(path, []byte(c08Variants[e.v].text), 0o644)
+		return s.Watched([]drv.FileEvent{{Rel: rel, Type: 3}, {Rel: rel, Type: 1}})
 	}
 	return nil
 }
@@ -513,6 +519,12 @@ func init() {
 				sp = append(sp, c08Space(flat, aopen, 3, 6), c08Space(flat, aopen, 4, 6))
 			} else {
 				sp = append(sp, c08Space(flat, aopen, 2, 6), c08Space(flat, aopen, 3, 6))
+			}
+			// a file replaced on disk: Deleted + Created for the same file in one watched-files notification
+			rep := c08Init{name: "a-open-reads-g,b-defines-g(replaced-files)", st: c08State{disk: [2]int{4, 3}, buf: [2]int{-1, -1}}, pre: []c08Event{{"open", 0, 0}},
+				alpha: []c08Event{{"replace", 1, 0}, {"replace", 1, 3}, {"replace", 1, 2}, {"extchange", 1, 0}, {"extchange", 1, 3}, {"delete", 1, 0}, {"create", 1, 3}, {"open", 1, 0}, {"close", 1, 0}}}
+			for d := 1; d <= 3; d++ {
+				sp = append(sp, c08Space(flat, rep, d, 3))
 			}
 			// a diagnostic whose text changes while its type and range stay (print(g) <-> print(h)), by edits and by events
 			msg := c08Init{name: "a-reads-g(message-only-changes)", st: c08State{disk: [2]int{4, -1}, buf: [2]int{-1, -1}},
